@@ -17,8 +17,8 @@ PID = "C07"
 RULE = ("labellings = product of (orientation pattern, cycle shift, vertex-id map, edge-id map, cell-id map, insertion order, edge direction); "
         "observation = internal interfaces, equation set, tension per physical interface, pressure per physical cell; "
         "non-trivial = labelling differs from the natural one; classes = labelling class signature")
-BOUND = {"quick": "deviation bound 2 over 7 labelling classes on a 6-cell curved base; all 2^6/2^7 orientation patterns; all 720 permutations of 6 junction ids; all 120 insertion orders of a 5-cell sub-tissue",
-         "thorough": "d=2 on 7- and 11-cell bases and on square3x3; all 2^11 orientation patterns; 720 permutations on two tissues; all insertion orders of two 5-cell sub-tissues"}
+BOUND = {"quick": "deviation bound 2 over 7 labelling classes on a 6-cell curved base; all 2^6/2^7 orientation patterns; all 720 permutations of 6 junction ids; all 120 insertion orders of a 5-cell sub-tissue; deviation bound 1 on tissues with mixed per-interface point counts (6-cell base, lens)",
+         "thorough": "d=2 on 7- and 11-cell bases and on square3x3; all 2^11 orientation patterns; 720 permutations on two tissues; all insertion orders of two 5-cell sub-tissues; d=2 on an 8-cell sub-tissue with a cell outside every internal interface and on mixed point counts (11-cell base, lens, 5-fold fan)"}
 ASSUMPTIONS = ["cells are inserted into the dict in construction order, as every parser does", "comparison tolerance 1e-9 (coefficients), 1e-8 x conditioning (tensions, pressures)"]
 REQUIRED_TAGS = {"all": ["orient", "shift", "vmap", "emap", "cids", "order", "eflip", "pressures_compared", "tensions_compared", "undetermined_non_unique_optimum", "same_tensions_although_not_unique", "cell_without_internal_interface"]}
 
